@@ -1,12 +1,474 @@
 """Contract + loop invariants for codec::rle::rle_16_decompress (interleaved RLE, 16 bpp), used by units codec and codec16.
-The 11 `repeat!` call sites are expanded textually (rule R4), giving 2 loops each."""
+The 11 `repeat!` call sites are expanded textually (rule R4), giving 2 loops each.
+
+Two layers:
+  * SAFETY (C08): bounds / termination / length preservation (invariants _COMMON, _OUTER, _COUNT, _repeat_inv);
+  * FUNCTIONAL CORRECTNESS (C09): RLE16_SPECS is a pixel-granular transcription of MS-RDPBCGR 2.2.9.1.1.3.1.2.4 / 3.1.9; the loops carry a ghost
+    decoded-pixel sequence `img` that is a prefix of the specification's result, one ghost step per executed pixel statement."""
 from vx.spec import *
 
 RLE = "src/codec/rle.rs"
 
+RLE16_SPECS = Raw(r"""
+// ===== MS-RDPBCGR 2.2.9.1.1.3.1.2.4 (RLE_BITMAP_STREAM) / 3.1.9 (RleDecompress): Interleaved RLE at 16 bpp =====
+// Written from the specification text, at the granularity of single pixels.
+pub enum RleForm { Regular, Lite, MegaMega, Special }
+pub enum RleCode { BgRun, FgRun, FgBgImage, ColorRun, ColorImage, SetFgFgRun, SetFgFgBgImage, DitheredRun, SpecialFgBg1, SpecialFgBg2, White, Black }
+/// what an order paints (the SET_FG variants and the SPECIAL_FGBG orders are folded into `set_fg` / `mask` of RleOrder)
+pub enum RleKind { BgRun, FgRun, FgBgImage, ColorRun, ColorImage, DitheredRun, White, Black }
+
+/// the order code carried by the 3-bit field of a REGULAR header or by the low nibble of a MEGA_MEGA header
+pub open spec fn rle16_basic_code(c: u8) -> Option<RleCode> {
+    if c == 0 { Some(RleCode::BgRun) } else if c == 1 { Some(RleCode::FgRun) } else if c == 2 { Some(RleCode::FgBgImage) }
+    else if c == 3 { Some(RleCode::ColorRun) } else if c == 4 { Some(RleCode::ColorImage) } else { None }
+}
+/// order header byte -> (form, code); None: not an order (0xA0..=0xBF, 0xF5, 0xFB, 0xFC, 0xFF)
+pub open spec fn rle16_header(h: u8) -> Option<(RleForm, RleCode)> {
+    if h >> 5 <= 4 { Some((RleForm::Regular, rle16_basic_code(h >> 5)->Some_0)) }
+    else if h >> 4 == 0xC { Some((RleForm::Lite, RleCode::SetFgFgRun)) }
+    else if h >> 4 == 0xD { Some((RleForm::Lite, RleCode::SetFgFgBgImage)) }
+    else if h >> 4 == 0xE { Some((RleForm::Lite, RleCode::DitheredRun)) }
+    else if h >> 4 == 0xF {
+        let c = h & 0x0f;
+        if c <= 4 { Some((RleForm::MegaMega, rle16_basic_code(c)->Some_0)) }
+        else if c == 6 { Some((RleForm::MegaMega, RleCode::SetFgFgRun)) }
+        else if c == 7 { Some((RleForm::MegaMega, RleCode::SetFgFgBgImage)) }
+        else if c == 8 { Some((RleForm::MegaMega, RleCode::DitheredRun)) }
+        else if c == 9 { Some((RleForm::Special, RleCode::SpecialFgBg1)) }
+        else if c == 0xA { Some((RleForm::Special, RleCode::SpecialFgBg2)) }
+        else if c == 0xD { Some((RleForm::Special, RleCode::White)) }
+        else if c == 0xE { Some((RleForm::Special, RleCode::Black)) }
+        else { None }
+    } else { None }
+}
+pub open spec fn rle16_is_fgbg(c: RleCode) -> bool { c is FgBgImage || c is SetFgFgBgImage }
+/// run length of a REGULAR / LITE order whose in-header length field is `field`: (length, offset after header and length extension).
+/// field == 0 is the MEGA form (one more byte): + 1 for the FGBG images, + `mega_base` (32 / 16) for the others;
+/// a non-zero field of an FGBG image counts groups of 8 pixels
+pub open spec fn rle16_short_length(s: Seq<u8>, i: int, field: nat, mega_base: nat, fgbg: bool) -> Option<(nat, int)> {
+    if field != 0 { Some((if fgbg { field * 8 } else { field }, i + 1)) }
+    else if i + 1 < s.len() { Some((s[i + 1] as nat + (if fgbg { 1nat } else { mega_base }), i + 2)) }
+    else { None }
+}
+pub open spec fn rle16_length(s: Seq<u8>, i: int, form: RleForm, code: RleCode) -> Option<(nat, int)> {
+    match form {
+        RleForm::Regular => rle16_short_length(s, i, (s[i] & 0x1f) as nat, 32, rle16_is_fgbg(code)),
+        RleForm::Lite => rle16_short_length(s, i, (s[i] & 0x0f) as nat, 16, rle16_is_fgbg(code)),
+        RleForm::MegaMega => if i + 2 < s.len() { Some((u16_le(s[i + 1], s[i + 2]) as nat, i + 3)) } else { None },
+        RleForm::Special => Some((if code is White || code is Black { 1nat } else { 8nat }, i + 1)),
+    }
+}
+pub open spec fn rle16_kind(c: RleCode) -> RleKind {
+    match c {
+        RleCode::BgRun => RleKind::BgRun,
+        RleCode::FgRun | RleCode::SetFgFgRun => RleKind::FgRun,
+        RleCode::FgBgImage | RleCode::SetFgFgBgImage | RleCode::SpecialFgBg1 | RleCode::SpecialFgBg2 => RleKind::FgBgImage,
+        RleCode::ColorRun => RleKind::ColorRun,
+        RleCode::ColorImage => RleKind::ColorImage,
+        RleCode::DitheredRun => RleKind::DitheredRun,
+        RleCode::White => RleKind::White,
+        RleCode::Black => RleKind::Black,
+    }
+}
+pub struct RleOrder {
+    pub kind: RleKind,
+    /// SET_FG_* orders: the new foreground pel
+    pub set_fg: Option<u16>,
+    /// run length (DITHERED_RUN: number of pixel PAIRS)
+    pub len: nat,
+    /// SPECIAL_FGBG_1 / _2: the fixed bitmask
+    pub mask: Option<u8>,
+    /// COLOR_RUN: the colour `a`; DITHERED_RUN: the colours `a`, `b`
+    pub a: u16,
+    pub b: u16,
+    /// offset of the per-pixel data (FGBG_IMAGE: bitmask bytes, COLOR_IMAGE: pixels)
+    pub data: int,
+    /// offset of the next order
+    pub next: int,
+}
+/// number of bytes of per-pixel data
+pub open spec fn rle16_data_len(kind: RleKind, mask: Option<u8>, len: nat) -> int {
+    if kind is ColorImage { 2 * (len as int) } else if kind is FgBgImage && mask is None { (len as int + 7) / 8 } else { 0 }
+}
+/// the order starting at offset i (0 <= i < s.len()); None: not an order, or header / parameters truncated
+pub open spec fn rle16_parse(s: Seq<u8>, i: int) -> Option<RleOrder> {
+    match rle16_header(s[i]) {
+        None => None,
+        Some((form, code)) => match rle16_length(s, i, form, code) {
+            None => None,
+            Some((len, j)) => {
+                let sets = code is SetFgFgRun || code is SetFgFgBgImage;
+                let jf = if sets { j + 2 } else { j };
+                let ncol: int = if code is ColorRun { 1 } else if code is DitheredRun { 2 } else { 0 };
+                let d = jf + 2 * ncol;
+                let kind = rle16_kind(code);
+                let mask = if code is SpecialFgBg1 { Some(0x03u8) } else if code is SpecialFgBg2 { Some(0x05u8) } else { None };
+                if d > s.len() { None } else {
+                    Some(RleOrder {
+                        kind, len, mask,
+                        set_fg: if sets { Some(u16_le(s[j], s[j + 1])) } else { None },
+                        a: if ncol >= 1 { u16_le(s[jf], s[jf + 1]) } else { 0 },
+                        b: if ncol == 2 { u16_le(s[jf + 2], s[jf + 3]) } else { 0 },
+                        data: d,
+                        next: d + rle16_data_len(kind, mask, len),
+                    })
+                }
+            },
+        },
+    }
+}
+/// the pixel at the same column of the previously decoded scanline (black on the first decoded scanline); img = pixels decoded so far
+pub open spec fn rle16_above(img: Seq<u16>, width: nat) -> u16 { if img.len() < width { 0 } else { img[img.len() - width] } }
+pub open spec fn rle16_bit(j: int) -> u8 {
+    if j == 0 { 1 } else if j == 1 { 2 } else if j == 2 { 4 } else if j == 3 { 8 } else if j == 4 { 16 } else if j == 5 { 32 } else if j == 6 { 64 } else { 128 }
+}
+/// FGBG_IMAGE: the bitmask byte that covers pixel k (one byte per 8 pixels, least significant bit first)
+pub open spec fn rle16_maskbyte(s: Seq<u8>, o: RleOrder, k: int) -> u8 { match o.mask { Some(m) => m, None => s[o.data + k / 8] } }
+pub open spec fn rle16_npix(o: RleOrder) -> nat { if o.kind is DitheredRun { 2 * o.len } else { o.len } }
+/// pixel number k (from 0) of order `o`; img = everything decoded before it (k pixels of this order included), fg = foreground pel in force,
+/// insert = the insert-fg-pel rule applies to this order
+pub open spec fn rle16_pixel(s: Seq<u8>, width: nat, o: RleOrder, fg: u16, insert: bool, img: Seq<u16>, k: int) -> u16 {
+    let above = rle16_above(img, width);
+    match o.kind {
+        RleKind::BgRun => if k == 0 && insert { above ^ fg } else { above },
+        RleKind::FgRun => above ^ fg,
+        RleKind::FgBgImage => {
+            if rle16_maskbyte(s, o, k) & rle16_bit(k % 8) != 0 { above ^ fg } else { above }
+        },
+        RleKind::ColorRun => o.a,
+        RleKind::ColorImage => u16_le(s[o.data + 2 * k], s[o.data + 2 * k + 1]),
+        RleKind::DitheredRun => if k % 2 == 0 { o.a } else { o.b },
+        RleKind::White => 0xffff,
+        RleKind::Black => 0,
+    }
+}
+/// img extended by the first k pixels of order o
+pub open spec fn rle16_write(s: Seq<u8>, width: nat, o: RleOrder, fg: u16, insert: bool, img: Seq<u16>, k: nat) -> Seq<u16>
+    decreases k
+{
+    if k == 0 { img } else {
+        let prev = rle16_write(s, width, o, fg, insert, img, (k - 1) as nat);
+        prev.push(rle16_pixel(s, width, o, fg, insert, prev, k - 1))
+    }
+}
+pub struct RleState { pub img: Seq<u16>, pub fg: u16, pub last_bg: bool }
+/// INSERT-FG-PEL: a BG_RUN that immediately follows a BG_RUN starts with one foreground pixel, unless the position is the end of the
+/// first decoded scanline (or nothing has been decoded)
+pub open spec fn rle16_insert(st: RleState, width: nat, o: RleOrder) -> bool {
+    o.kind is BgRun && st.last_bg && !(st.img.len() == 0 || st.img.len() == width)
+}
+pub open spec fn rle16_fg(st: RleState, o: RleOrder) -> u16 { match o.set_fg { Some(f) => f, None => st.fg } }
+pub open spec fn rle16_apply(s: Seq<u8>, width: nat, st: RleState, o: RleOrder) -> RleState {
+    RleState {
+        img: rle16_write(s, width, o, rle16_fg(st, o), rle16_insert(st, width, o), st.img, rle16_npix(o)),
+        fg: rle16_fg(st, o),
+        last_bg: o.kind is BgRun,
+    }
+}
+pub open spec fn rle16_run(s: Seq<u8>, width: nat, i: int, st: RleState) -> Option<Seq<u16>>
+    decreases s.len() - i
+{
+    if i < 0 { None }
+    else if i >= s.len() { Some(st.img) }
+    else {
+        match rle16_parse(s, i) {
+            None => None,
+            Some(o) => if i < o.next <= s.len() { rle16_run(s, width, o.next, rle16_apply(s, width, st, o)) } else { None },
+        }
+    }
+}
+/// the decoded pixels in DECODE order (first = leftmost pixel of the bottom row); None: malformed stream
+pub open spec fn rle16_decode(s: Seq<u8>, width: nat) -> Option<Seq<u16>> {
+    rle16_run(s, width, 0, RleState { img: Seq::empty(), fg: 0xffff, last_bg: false })
+}
+/// the stream (from offset i) contains a MEGA_MEGA-form header 0xF0..=0xF8 with a ZERO 16-bit run length
+pub open spec fn rle16_zero_run(s: Seq<u8>, i: int) -> bool
+    decreases s.len() - i
+{
+    if i < 0 || i >= s.len() { false }
+    else if 0xF0 <= s[i] <= 0xF8 && i + 2 < s.len() && s[i + 1] == 0 && s[i + 2] == 0 { true }
+    else {
+        match rle16_parse(s, i) {
+            None => false,
+            Some(o) => i < o.next <= s.len() && rle16_zero_run(s, o.next),
+        }
+    }
+}
+/// an order always consumes its header byte (the guard `i < o.next` of rle16_run never fires)
+pub proof fn lemma_rle16_parse_next(s: Seq<u8>, i: int)
+    requires 0 <= i < s.len()
+    ensures rle16_parse(s, i) matches Some(o) ==> i < o.data <= s.len() && o.data <= o.next
+{
+}
+
+// ----- bit-level facts about header bytes
+pub proof fn lemma_rle16_bits(h: u8)
+    ensures (h >> 4) == h / 16, (h >> 5) == h / 32, (h & 0x1f) == h % 32, (h & 0x0f) == h % 16, ((h >> 4) >> 1) == h / 32,
+        (h >> 4) <= 15, (h & 0x0f) <= 15, (h & 0x1f) <= 31,
+{
+    assert((h >> 4) == h / 16 && (h >> 5) == h / 32 && (h & 0x1f) == h % 32 && (h & 0x0f) == h % 16 && ((h >> 4) >> 1) == h / 32
+        && (h >> 4) <= 15 && (h & 0x0f) <= 15 && (h & 0x1f) <= 31) by(bit_vector);
+}
+// ----- relation between the output buffer (rows stored top-down, decoded bottom-up) and the decoded pixel sequence, in LINEAR form
+/// n completed rows: the most recent one at out[l .. l+width) == img[b .. b+width), the one before at out[l+width ..) == img[b-width ..), ...
+pub open spec fn rle16_rows_ok(out: Seq<u16>, img: Seq<u16>, width: int, l: int, b: int, n: nat) -> bool
+    decreases n
+{
+    n == 0 || (0 <= b && b + width <= img.len() && 0 <= l && l + width <= out.len()
+        && (forall|c: int| 0 <= c < width ==> #[trigger] out[l + c] == img[b + c])
+        && rle16_rows_ok(out, img, width, l + width, b - width, (n - 1) as nat))
+}
+/// state of the row being decoded: row start l in out, x pixels of it written, img index of the row start = base;
+/// o0 = the buffer on entry, orow / imgrow = out / img when the row was started, top = width * height
+#[verifier::opaque]
+pub open spec fn rle16_row_inv(out: Seq<u16>, o0: Seq<u16>, orow: Seq<u16>, img: Seq<u16>, imgrow: Seq<u16>, width: int, top: int, l: int, x: int, base: int, prev: Option<usize>) -> bool {
+    &&& out.len() == o0.len() && orow.len() == o0.len()
+    &&& 0 <= width && 0 <= l && l + width <= top <= out.len() && 0 <= x <= width && 0 <= base
+    &&& img.len() == base + x && imgrow.len() == base
+    &&& (prev matches Some(e) ==> e == l + width && e + width <= top && base >= width)
+    &&& (prev is None ==> base == 0)
+    &&& (forall|c: int| 0 <= c < x ==> #[trigger] out[l + c] == img[base + c])
+    &&& (forall|c: int| 0 <= c < width && base >= width ==> #[trigger] out[l + width + c] == img[base - width + c])
+    &&& (forall|i: int| 0 <= i < l + width && !(l <= i < l + x) ==> #[trigger] out[i] == o0[i])
+    &&& (forall|i: int| l + width <= i < out.len() ==> #[trigger] out[i] == orow[i])
+    &&& (forall|i: int| top <= i < out.len() ==> #[trigger] orow[i] == o0[i])
+    &&& (forall|p: int| 0 <= p < base ==> #[trigger] img[p] == imgrow[p])
+}
+pub proof fn lemma_rle16_row_facts(out: Seq<u16>, o0: Seq<u16>, orow: Seq<u16>, img: Seq<u16>, imgrow: Seq<u16>, width: int, top: int, l: int, x: int, base: int, prev: Option<usize>)
+    requires rle16_row_inv(out, o0, orow, img, imgrow, width, top, l, x, base, prev)
+    ensures img.len() == base + x, 0 <= x <= width, 0 <= l, l + width <= out.len(), out.len() == o0.len(),
+        prev matches Some(e) ==> e == l + width && e + width <= out.len(),
+        x < width ==> rle16_above(img, width as nat) == (match prev { Some(e) => out[e + x], None => 0u16 }),
+{
+    reveal(rle16_row_inv);
+    if x < width {
+        match prev {
+            Some(e) => { assert(out[l + width + x] == img[base - width + x]); },
+            None => {},
+        }
+    }
+}
+/// one pixel written
+pub proof fn lemma_rle16_put(out: Seq<u16>, out2: Seq<u16>, o0: Seq<u16>, orow: Seq<u16>, img: Seq<u16>, imgrow: Seq<u16>, width: int, top: int, l: int, x: int, base: int, prev: Option<usize>, v: u16)
+    requires rle16_row_inv(out, o0, orow, img, imgrow, width, top, l, x, base, prev), x < width, out2 == out.update(l + x, v)
+    ensures rle16_row_inv(out2, o0, orow, img.push(v), imgrow, width, top, l, x + 1, base, prev)
+{
+    reveal(rle16_row_inv);
+    let img2 = img.push(v);
+    assert forall|c: int| 0 <= c < x + 1 implies #[trigger] out2[l + c] == img2[base + c] by {
+        if c < x { assert(out[l + c] == img[base + c]); }
+    }
+    assert forall|c: int| 0 <= c < width && base >= width implies #[trigger] out2[l + width + c] == img2[base - width + c] by {
+        assert(out[l + width + c] == img[base - width + c]);
+    }
+}
+pub proof fn lemma_rle16_rows_frame(out: Seq<u16>, out2: Seq<u16>, img: Seq<u16>, img2: Seq<u16>, width: int, l: int, b: int, n: nat)
+    requires rle16_rows_ok(out, img, width, l, b, n), out2.len() == out.len(), img2.len() >= img.len(), 0 <= width,
+        forall|i: int| l <= i < out.len() ==> #[trigger] out2[i] == out[i],
+        forall|p: int| 0 <= p < b + width && p < img.len() ==> #[trigger] img2[p] == img[p],
+    ensures rle16_rows_ok(out2, img2, width, l, b, n)
+    decreases n
+{
+    if n > 0 {
+        lemma_rle16_rows_frame(out, out2, img, img2, width, l + width, b - width, (n - 1) as nat);
+        assert forall|c: int| 0 <= c < width implies #[trigger] out2[l + c] == img2[b + c] by {
+            assert(out[l + c] == img[b + c]);
+        }
+    }
+}
+/// the first row is started
+pub proof fn lemma_rle16_first_row(o0: Seq<u16>, width: int, top: int, l: int)
+    requires 0 <= width, 0 <= l, l + width <= top <= o0.len()
+    ensures rle16_row_inv(o0, o0, o0, Seq::<u16>::empty(), Seq::<u16>::empty(), width, top, l, 0, 0, None),
+        rle16_rows_ok(o0, Seq::<u16>::empty(), width, l + width, -width, 0)
+{
+    reveal(rle16_row_inv);
+}
+/// the current row is complete and the next one (below it in the buffer) is started
+pub proof fn lemma_rle16_next_row(out: Seq<u16>, o0: Seq<u16>, orow: Seq<u16>, img: Seq<u16>, imgrow: Seq<u16>, width: int, top: int, l: int, base: int, prev: Option<usize>, n: nat)
+    requires rle16_row_inv(out, o0, orow, img, imgrow, width, top, l, width, base, prev), l >= width, l <= usize::MAX,
+        rle16_rows_ok(orow, imgrow, width, l + width, base - width, n),
+    ensures rle16_row_inv(out, o0, out, img, img, width, top, l - width, 0, base + width, Some(l as usize)),
+        rle16_rows_ok(out, img, width, l, base, n + 1)
+{
+    reveal(rle16_row_inv);
+    lemma_rle16_rows_frame(orow, out, imgrow, img, width, l + width, base - width, n);
+    assert forall|c: int| 0 <= c < width && base + width >= width implies #[trigger] out[(l - width) + width + c] == img[(base + width) - width + c] by {
+        assert(out[l + c] == img[base + c]);
+    }
+}
+/// completed row j (0 = most recent)
+pub proof fn lemma_rle16_rows_at(out: Seq<u16>, img: Seq<u16>, width: int, l: int, b: int, n: nat, j: int, c: int)
+    requires rle16_rows_ok(out, img, width, l, b, n), 0 <= j < n, 0 <= c < width
+    ensures 0 <= b - j * width + c < img.len(), 0 <= l + j * width + c < out.len(), out[l + j * width + c] == img[b - j * width + c]
+    decreases j
+{
+    if j > 0 {
+        lemma_rle16_rows_at(out, img, width, l + width, b - width, (n - 1) as nat, j - 1, c);
+        assert((j - 1) * width == j * width - width) by(nonlinear_arith);
+    } else {
+        assert(out[l + c] == img[b + c]);
+    }
+}
+pub open spec fn rle16_idx(width: int, h0: int, r: int, c: int) -> int { (h0 - 1 - r) * width + c }
+/// the result in closed form: decoded pixel (row r, column c) is at out[(h0 - 1 - r) * width + c]
+pub proof fn lemma_rle16_final(out: Seq<u16>, o0: Seq<u16>, orow: Seq<u16>, img: Seq<u16>, imgrow: Seq<u16>, width: int, h0: int, height: int, x: int, prev: Option<usize>)
+    requires 0 <= height < h0,
+        rle16_row_inv(out, o0, orow, img, imgrow, width, width * h0, height * width, x, (h0 - height - 1) * width, prev),
+        rle16_rows_ok(orow, imgrow, width, height * width + width, (h0 - height - 1) * width - width, (h0 - height - 1) as nat),
+    ensures img.len() == (h0 - height - 1) * width + x, img.len() <= width * h0,
+        forall|r: int, c: int| 0 <= r && 0 <= c < width && r * width + c < img.len() ==> 0 <= #[trigger] rle16_idx(width, h0, r, c) < out.len() && out[rle16_idx(width, h0, r, c)] == img[r * width + c],
+        forall|r: int, c: int| 0 <= r < h0 && 0 <= c < width && r * width + c >= img.len() ==> 0 <= #[trigger] rle16_idx(width, h0, r, c) < out.len() && out[rle16_idx(width, h0, r, c)] == o0[rle16_idx(width, h0, r, c)],
+        forall|i: int| width * h0 <= i < out.len() ==> #[trigger] out[i] == o0[i],
+{
+    reveal(rle16_row_inv);
+    let n = h0 - height - 1;
+    let l = height * width;
+    let base = n * width;
+    lemma_rle16_rows_frame(orow, out, imgrow, img, width, l + width, base - width, n as nat);
+    assert(n * width + width <= h0 * width) by(nonlinear_arith) requires n + 1 <= h0, 0 <= width;
+    assert(width * h0 == h0 * width) by(nonlinear_arith);
+    assert forall|r: int, c: int| 0 <= r && 0 <= c < width && r * width + c < img.len() implies 0 <= #[trigger] rle16_idx(width, h0, r, c) < out.len() && out[rle16_idx(width, h0, r, c)] == img[r * width + c] by {
+        if r < n {
+            let j = n - 1 - r;
+            lemma_rle16_rows_at(out, img, width, l + width, base - width, n as nat, j, c);
+            assert(l + width + j * width == (h0 - 1 - r) * width) by(nonlinear_arith) requires l == height * width, j == h0 - height - 2 - r;
+            assert(base - width - j * width == r * width) by(nonlinear_arith) requires base == (h0 - height - 1) * width, j == h0 - height - 2 - r;
+        } else {
+            assert(r * width >= (n + 1) * width || r == n) by(nonlinear_arith) requires r >= n, 0 <= width;
+            assert((n + 1) * width == n * width + width) by(nonlinear_arith);
+            assert(r == n);
+            assert(c < x);
+            assert((h0 - 1 - r) * width == l);
+            assert(out[l + c] == img[base + c]);
+        }
+    }
+    assert forall|r: int, c: int| 0 <= r < h0 && 0 <= c < width && r * width + c >= img.len() implies 0 <= #[trigger] rle16_idx(width, h0, r, c) < out.len() && out[rle16_idx(width, h0, r, c)] == o0[rle16_idx(width, h0, r, c)] by {
+        if r < n {
+            assert((r + 1) * width <= n * width) by(nonlinear_arith) requires r + 1 <= n, 0 <= width;
+            assert((r + 1) * width == r * width + width) by(nonlinear_arith);
+            assert(false);
+        }
+        let i = rle16_idx(width, h0, r, c);
+        if r == n {
+            assert(i == l + c);
+        } else {
+            assert((h0 - 1 - r) * width + width <= height * width) by(nonlinear_arith) requires h0 - 1 - r + 1 <= height, 0 <= width;
+            assert(0 <= (h0 - 1 - r) * width) by(nonlinear_arith) requires 0 <= h0 - 1 - r, 0 <= width;
+        }
+        assert(out[i] == o0[i]);
+    }
+}
+
+// ----- the decoder's variables against the specification
+pub proof fn lemma_rle16_le_zero(a: u8, b: u8) ensures u16_le(a, b) == 0 ==> a == 0 && b == 0 {
+    assert(((a as u16) | ((b as u16) << 8)) == 0 ==> a == 0 && b == 0) by(bit_vector);
+}
+/// the decoder's internal (rdesktop) opcode of an order kind
+pub open spec fn rle16_opcode(k: RleKind) -> u8 {
+    match k {
+        RleKind::BgRun => 0, RleKind::FgRun => 1, RleKind::FgBgImage => 2, RleKind::ColorRun => 3, RleKind::ColorImage => 4,
+        RleKind::DitheredRun => 8, RleKind::White => 0xd, RleKind::Black => 0xe,
+    }
+}
+/// input offset after k pixels of order o (per-pixel data is consumed lazily)
+pub open spec fn rle16_pos(o: RleOrder, k: int) -> int {
+    if o.kind is ColorImage { o.data + 2 * k } else if o.kind is FgBgImage && o.mask is None { o.data + (k + 7) / 8 } else { o.data }
+}
+/// decoder state after k pixels of order o, which started in state st0
+#[verifier::opaque]
+pub open spec fn rle16_order_inv(s: Seq<u8>, width: nat, st0: RleState, o: RleOrder, k: int, opcode: u8, count: u32, bicolour: bool, pos: nat,
+    img: Seq<u16>, mix: u16, insertmix: bool, colour1: u16, colour2: u16, fom_mask: u8, mask: u8, mixmask: u8) -> bool
+{
+    let ins = rle16_insert(st0, width, o);
+    let npix = rle16_npix(o);
+    &&& opcode == rle16_opcode(o.kind)
+    &&& o.len > 0
+    &&& 0 <= k <= npix
+    &&& (o.kind is DitheredRun ==> 2 * count - (if bicolour { 1int } else { 0int }) == npix - k && bicolour == (k % 2 == 1))
+    &&& (!(o.kind is DitheredRun) ==> count == npix - k && !bicolour)
+    &&& pos == rle16_pos(o, k)
+    &&& mix == rle16_fg(st0, o)
+    &&& img == rle16_write(s, width, o, mix, ins, st0.img, k as nat)
+    &&& insertmix == (ins && k == 0)
+    &&& (o.kind is ColorRun ==> colour2 == o.a)
+    &&& (o.kind is DitheredRun ==> colour1 == o.a && colour2 == o.b)
+    &&& (o.kind is FgBgImage ==> {
+        &&& fom_mask == (match o.mask { Some(m) => m, None => 0u8 })
+        &&& (o.mask matches Some(m) ==> m != 0)
+        &&& (k == 0 ==> mixmask == 0)
+        &&& (k > 0 ==> mixmask == rle16_bit((k - 1) % 8) && mask == rle16_maskbyte(s, o, k - 1))
+    })
+}
+pub open spec fn rle16_shl1(m: u8) -> u8 { m << 1u8 }
+/// what one executed pixel statement of the decoder does to its variables (old -> new) and the value v it stores, per order kind;
+/// above = the pixel above the one written
+pub open spec fn rle16_code_step(s: Seq<u8>, kind: RleKind, above: u16, mix: u16, colour1: u16, colour2: u16, fom_mask: u8,
+    count: u32, bicolour: bool, pos: nat, insertmix: bool, mask: u8, mixmask: u8,
+    count2: u32, bicolour2: bool, pos2: nat, insertmix2: bool, mask2: u8, mixmask2: u8, v: u16) -> bool
+{
+    let m1 = rle16_shl1(mixmask);
+    &&& !insertmix2
+    &&& (!(kind is BgRun) ==> !insertmix)
+    &&& (!(kind is FgBgImage) ==> mask2 == mask && mixmask2 == mixmask)
+    &&& (!(kind is DitheredRun) ==> count2 == count - 1 && bicolour2 == bicolour)
+    &&& (!(kind is ColorImage) && !(kind is FgBgImage) ==> pos2 == pos)
+    &&& match kind {
+        RleKind::BgRun => v == (if insertmix { above ^ mix } else { above }),
+        RleKind::FgRun => v == above ^ mix,
+        RleKind::FgBgImage => {
+            &&& mask2 == (if m1 == 0 { if fom_mask != 0 { fom_mask } else { s[pos as int] } } else { mask })
+            &&& mixmask2 == (if m1 == 0 { 1u8 } else { m1 })
+            &&& pos2 == (if m1 == 0 && fom_mask == 0 { pos + 1 } else { pos })
+            &&& (m1 == 0 && fom_mask == 0 ==> pos < s.len())
+            &&& v == (if mask2 & mixmask2 != 0 { above ^ mix } else { above })
+        },
+        RleKind::ColorRun => v == colour2,
+        RleKind::ColorImage => pos + 2 <= s.len() && v == u16_le(s[pos as int], s[pos as int + 1]) && pos2 == pos + 2,
+        RleKind::DitheredRun => if bicolour { v == colour2 && !bicolour2 && count2 == count - 1 } else { v == colour1 && bicolour2 && count2 == count },
+        RleKind::White => v == 0xffff,
+        RleKind::Black => v == 0,
+    }
+}
+pub proof fn lemma_rle16_step(s: Seq<u8>, width: nat, st0: RleState, o: RleOrder, k: int, opcode: u8, img: Seq<u16>, mix: u16, colour1: u16, colour2: u16, fom_mask: u8,
+    count: u32, bicolour: bool, pos: nat, insertmix: bool, mask: u8, mixmask: u8,
+    count2: u32, bicolour2: bool, pos2: nat, insertmix2: bool, mask2: u8, mixmask2: u8, v: u16)
+    requires
+        rle16_order_inv(s, width, st0, o, k, opcode, count, bicolour, pos, img, mix, insertmix, colour1, colour2, fom_mask, mask, mixmask),
+        count > 0,
+        rle16_code_step(s, o.kind, rle16_above(img, width), mix, colour1, colour2, fom_mask, count, bicolour, pos, insertmix, mask, mixmask,
+            count2, bicolour2, pos2, insertmix2, mask2, mixmask2, v),
+    ensures
+        k < rle16_npix(o),
+        v == rle16_pixel(s, width, o, mix, rle16_insert(st0, width, o), img, k),
+        rle16_order_inv(s, width, st0, o, k + 1, opcode, count2, bicolour2, pos2, img.push(v), mix, insertmix2, colour1, colour2, fom_mask, mask2, mixmask2),
+{
+    reveal(rle16_order_inv);
+    let m = mixmask;
+    assert((m == 0u8 ==> m << 1u8 == 0u8) && (m == 1u8 ==> m << 1u8 == 2u8) && (m == 2u8 ==> m << 1u8 == 4u8) && (m == 4u8 ==> m << 1u8 == 8u8)
+      && (m == 8u8 ==> m << 1u8 == 16u8) && (m == 16u8 ==> m << 1u8 == 32u8) && (m == 32u8 ==> m << 1u8 == 64u8) && (m == 64u8 ==> m << 1u8 == 128u8) && (m == 128u8 ==> m << 1u8 == 0u8)) by(bit_vector);
+    let ins = rle16_insert(st0, width, o);
+    assert(rle16_write(s, width, o, mix, ins, st0.img, (k + 1) as nat) == img.push(rle16_pixel(s, width, o, mix, ins, img, k)));
+}
+""", mod="rle", name="rle16_specs")
+
+ZR = "rle16_zero_run(input@, 0)"
+DEC = "rle16_decode(input@, width as nat)"
+_OK = "r is Ok && !" + ZR + " ==> "
+
 RLE16_CONTRACT = dict(
     requires=["width * height <= old(output)@.len()"],
-    ensures=[("C08", "len", "final(output)@.len() == old(output)@.len()")],
+    ensures=[("C08", "len", "final(output)@.len() == old(output)@.len()"),
+             # --- functional correctness against RLE16_SPECS (decode order: pixel (rr, c) = column c of the rr-th decoded scanline = row height-1-rr of the bitmap).
+             # Domain: streams without a zero-length MEGA_MEGA order (rle16_zero_run), see the findings in the unit notes.
+             ("C09", "rle16-conformant", _OK + DEC + " is Some"),
+             ("C09", "rle16-size", _OK + DEC + "->Some_0.len() <= width * height"),
+             ("C09", "rle16-exact", _OK + "forall|rr: int, c: int| 0 <= rr && 0 <= c < width && rr * width + c < " + DEC + "->Some_0.len() ==> "
+              "0 <= #[trigger] rle16_idx(width as int, height as int, rr, c) < old(output)@.len() && final(output)@[rle16_idx(width as int, height as int, rr, c)] == " + DEC + "->Some_0[rr * width + c]"),
+             ("C09", "rle16-frame-rows", _OK + "forall|rr: int, c: int| 0 <= rr < height && 0 <= c < width && rr * width + c >= " + DEC + "->Some_0.len() ==> "
+              "0 <= #[trigger] rle16_idx(width as int, height as int, rr, c) < old(output)@.len() && final(output)@[rle16_idx(width as int, height as int, rr, c)] == old(output)@[rle16_idx(width as int, height as int, rr, c)]"),
+             ("C09", "rle16-frame-tail", _OK + "forall|i: int| width * height <= i < old(output)@.len() ==> #[trigger] final(output)@[i] == old(output)@[i]"),
+             ],
 )
 
 # ---------------------------------------------------------------------------------------------------------------
@@ -19,6 +481,8 @@ N_LOOPS = 2 + 2 * N_SITES
 
 # the sites whose statement reads the previous line through the binding `e` of `if let Some(e) = prevline`
 _E_SITES = {0, 2, 4}
+_NONE_SITES = {1, 3, 5}
+_SITE_KIND = ["BgRun", "BgRun", "FgRun", "FgRun", "FgBgImage", "FgBgImage", "ColorRun", "ColorImage", "DitheredRun", "White", "Black"]
 
 # all row bookkeeping is kept in LINEAR form: a row start `l` is usable iff l + width <= len
 # MAXLEN: a [u16] spans at most isize::MAX bytes (see PRE), so that `x + 8` with x <= width <= len cannot overflow
@@ -30,6 +494,25 @@ _COMMON = """
         count <= 0xffff,
         input_cursor.pos() > p0,
 """
+
+# ---- functional layer (every clause is guarded by `dz ||`: nothing is claimed for streams with a zero-length MEGA_MEGA order)
+# current row: `line` None = nothing decoded yet; Some(l) = row_inv (opaque bundle) + the completed rows (snapshot taken when the row was started)
+_F_CURSOR = """
+        input_cursor.data() == input@,
+        input_cursor.pos() <= input@.len(),
+        o0 == old(output)@,
+        top == width * h0,
+        dz == rle16_zero_run(input@, 0),
+        dec == rle16_decode(input@, width as nat),
+"""
+_F_ROWS = """
+        dz || (line is None ==> output@ == o0 && img.len() == 0 && height == h0 && x == width),
+        dz || (line is Some ==> line->Some_0 == height * width && height < h0 && base == (h0 - height - 1) * width
+            && rle16_row_inv(output@, o0, orow, img, imgrow, width as int, top, line->Some_0 as int, x as int, base, prevline)
+            && rle16_rows_ok(orow, imgrow, width as int, line->Some_0 + width, base - width, (h0 - height - 1) as nat)),
+"""
+_ORDER_INV = ("rle16_order_inv(input@, width as nat, st0, po->Some_0, k, opcode, count, bicolour, input_cursor.pos(), img, mix, insertmix, "
+              "colour1, colour2, fom_mask, mask, mixmask)")
 
 _OUTER = """
     invariant
@@ -43,6 +526,9 @@ _OUTER = """
         prevline matches Some(p) ==> p + width <= output@.len() && line is Some,
         insertmix ==> width > 0,
         width == 0 ==> line is None,
+""" + _F_CURSOR + _F_ROWS + """
+        dz || (rle16_run(input@, width as nat, input_cursor.pos() as int, RleState { img, fg: mix, last_bg: lastopcode == 0 }) == dec
+            && !rle16_zero_run(input@, input_cursor.pos() as int) && !insertmix && !bicolour && (line is Some ==> x >= 1)),
     decreases
         (if input_cursor.pos() <= input@.len() { input@.len() - input_cursor.pos() } else { 0 }),
 """
@@ -57,12 +543,21 @@ _COUNT = """
         prevline matches Some(p) ==> p + width <= output@.len() && line is Some,
         insertmix ==> width > 0,
         (width == 0 && line is Some) ==> count > 0,
+""" + _F_CURSOR + _F_ROWS + """
+        ocur == output@, g_count == count, g_bic == bicolour, g_pos == input_cursor.pos(), g_ins == insertmix, g_mask == mask, g_mm == mixmask,
+        dz || (po is Some ==> opcode == rle16_opcode(po->Some_0.kind)),
+        dz || (p0 < input@.len() && po == rle16_parse(input@, p0 as int) && st0.img.len() <= img.len()
+            && rle16_run(input@, width as nat, p0 as int, st0) == dec && !rle16_zero_run(input@, p0 as int)
+            && (line is Some ==> x >= 1)),
+        dz || (po is None ==> count > 0 && (opcode == 5 || opcode == 0xb || opcode == 0xc || opcode == 0xf)),
+        dz || (po is Some ==> """ + _ORDER_INV + """),
     decreases
         height, (if x < width { 1int } else { 0int }), count,
 """
 
 
-def _repeat_inv(with_e):
+def _repeat_inv(site):
+    with_e = site in _E_SITES
     s = """
     invariant
 """ + _COMMON + """
@@ -71,7 +566,18 @@ def _repeat_inv(with_e):
 """
     if with_e:
         s += "        e + width <= output@.len(),\n"
-    s += """    decreases
+    prev = ""
+    if with_e:
+        prev = " && prevline == Some(e)"
+    elif site in _NONE_SITES:
+        prev = " && prevline is None"
+    s += _F_CURSOR + """
+        ocur == output@, g_count == count, g_bic == bicolour, g_pos == input_cursor.pos(), g_ins == insertmix, g_mask == mask, g_mm == mixmask,
+        x >= 1 || count > 0,
+        !insertmix,
+        dz || (po is Some && po->Some_0.kind is """ + _SITE_KIND[site] + prev + """ && """ + _ORDER_INV + """
+            && line is Some && rle16_row_inv(output@, o0, orow, img, imgrow, width as int, top, line->Some_0 as int, x as int, base, prevline)),
+    decreases
         width - x,
 """
     return s
@@ -80,19 +586,99 @@ def _repeat_inv(with_e):
 LOOPS = {1: _OUTER, 2: _COUNT}
 for _s in range(N_SITES):
     for _k in (0, 1):
-        LOOPS[3 + 2 * _s + _k] = _repeat_inv(_s in _E_SITES)
+        LOOPS[3 + 2 * _s + _k] = _repeat_inv(_s)
 
 _UNROLLED = r"while \(\(count & !0x7\) != 0\) && \(x \+ 8\) < width \{"
 
+# ghost step after every executed pixel statement (`x += 1;` closes each of them: 88 unrolled + 11 remainder + the insert-fg-pel pixel)
+_SNAP = "g_count = count; g_bic = bicolour; g_pos = input_cursor.pos(); g_ins = insertmix; g_mask = mask; g_mm = mixmask; ocur = output@;"
+_PIXEL = """proof {
+    if !dz {
+        let o = po->Some_0; let l = line->Some_0 as int; let v = output@[l + x - 1];
+        lemma_rle16_row_facts(ocur, o0, orow, img, imgrow, width as int, top, l, x - 1, base, prevline);
+        assert(0u16 ^ mix == mix) by(bit_vector);
+        lemma_rle16_step(input@, width as nat, st0, o, k, opcode, img, mix, colour1, colour2, fom_mask,
+            g_count, g_bic, g_pos, g_ins, g_mask, g_mm, count, bicolour, input_cursor.pos(), insertmix, mask, mixmask, v);
+        lemma_rle16_put(ocur, output@, o0, orow, img, imgrow, width as int, top, l, x - 1, base, prevline, v);
+        img = img.push(v); k = k + 1;
+    }
+    """ + _SNAP + """
+}"""
+_ORDER_START = """let ghost st0 = RleState { img, fg: mix, last_bg: lastopcode == 0 };
+let ghost po = rle16_parse(input@, p0 as int);"""
+
+_DECODED = """proof {
+    lemma_rle16_bits(code);
+    if !dz {
+        assert(input@[p0 as int] == code);
+        lemma_rle16_parse_next(input@, p0 as int);
+        if 0xF0 <= code <= 0xF8 { lemma_rle16_le_zero(input@[p0 as int + 1], input@[p0 as int + 2]); }
+        k = 0;
+        assert(po is None ==> count > 0 && (opcode == 5 || opcode == 0xb || opcode == 0xc || opcode == 0xf));
+        reveal(rle16_order_inv);
+        assert(po is Some ==> """ + _ORDER_INV + """);
+    }
+    """ + _SNAP + """
+}"""
+
+_ROW = """proof {
+    if !dz {
+        let ln = (height * width) as int;
+        assert((height + 1) * width == height * width + width) by(nonlinear_arith);
+        assert((h0 - height - 1) * width == (h0 - height - 2) * width + width) by(nonlinear_arith);
+        assert(0 <= height * width) by(nonlinear_arith) requires 0 <= height, 0 <= width;
+        match prevline {
+            None => {
+                assert(img =~= Seq::<u16>::empty());
+                lemma_rle16_first_row(o0, width as int, top, ln);
+                base = 0;
+            },
+            Some(lo) => {
+                lemma_rle16_next_row(output@, o0, orow, img, imgrow, width as int, top, lo as int, base, pl_old, (h0 - height - 2) as nat);
+                base = base + width;
+            },
+        }
+        orow = output@; imgrow = img;
+    }
+}"""
+
+_ORDER_END = """proof {
+    if !dz {
+        let o = po->Some_0;
+        reveal(rle16_order_inv);
+        assert(k == rle16_npix(o));
+        assert(input_cursor.pos() == o.next);
+        assert(rle16_apply(input@, width as nat, st0, o) == RleState { img, fg: mix, last_bg: lastopcode == 0 });
+    }
+}"""
+
+_POST = """proof {
+    if !dz {
+        assert(dec == Some(img));
+        match line {
+            None => { assert(img =~= Seq::<u16>::empty()); },
+            Some(l) => {
+                lemma_rle16_final(output@, o0, orow, img, imgrow, width as int, h0 as int, height as int, x as int, prevline);
+            },
+        }
+    }
+}"""
+
 HINTS = [
     # the position at the start of the order: every order consumes at least its first byte
-    (r"fom_mask = 0;", 1, "let ghost p0 = input_cursor.pos();", "after"),
+    (r"fom_mask = 0;", 1, "let ghost p0 = input_cursor.pos();\n" + _ORDER_START, "after"),
     (r"opcode = code >> 4;", 1,
      "proof { assert(code & 0xfu8 <= 15) by(bit_vector); assert(code & 0x1fu8 <= 31) by(bit_vector); "
      "assert(code >> 4u8 <= 15) by(bit_vector); }", "after"),
-    (r"count <<= 3;", 1, "proof { assert(count <= 31 ==> (count << 3u32) <= 0xffff) by(bit_vector); }", "before"),
+    (r"count <<= 3;", 1, "proof { assert(count <= 31 ==> (count << 3u32) <= 0xffff) by(bit_vector); "
+                         "assert(count <= 31 ==> (count << 3u32) == count * 8) by(bit_vector); }", "before"),
     (r"line = Some\(height \* width\);", 1,
      "proof { assert(height * width + width <= width * h0) by(nonlinear_arith) requires height < h0; }", "before"),
+    (r"mixmask = 0;", 1, _DECODED, "after"),
+    (r"prevline = line;", 1, "let ghost pl_old = prevline;", "before"),
+    (r"line = Some\(height \* width\);", 1, _ROW, "after"),
+    (r'"Unknown opcode"\)\)\)\s*\}\s*\}', 1, _ORDER_END, "after"),
+    (r"\n\tOk\(\(\)\)", 1, _POST, "before"),
 ]
 for _s in range(N_SITES):
     HINTS.append((_UNROLLED, _s + 1,
@@ -102,6 +688,8 @@ for _s in range(N_SITES):
 _STEP = r"\}; count -= 1; x \+= 1;"
 for _i in range(24):
     HINTS.append((_STEP, _i + 1, "proof { assert(output@.len() == old(output)@.len() && input_cursor.pos() > p0); }", "after"))
+for _i in range(8 * N_SITES + N_SITES + 1):
+    HINTS.append((r"x \+= 1;", _i + 1, _PIXEL, "after"))
 
 # A [u16] never spans more than isize::MAX bytes (Rust layout rule).  vstd states this as the ensures of the
 # erased, empty-bodied exec function `layout_for_val_is_valid` (its argument is Tracked, i.e. ghost): calling it is
@@ -115,8 +703,20 @@ proof {
     vstd::layout::layout_of_slices::<u16>(&*output);
     assert(output@.len() * 2 <= isize::MAX);
 }
+let ghost o0 = output@;
+let ghost top: int = width * h0;
+let ghost dz = rle16_zero_run(input@, 0);
+let ghost dec = rle16_decode(input@, width as nat);
+let ghost mut img: Seq<u16> = Seq::empty();
+let ghost mut orow: Seq<u16> = output@;
+let ghost mut imgrow: Seq<u16> = Seq::empty();
+let ghost mut base: int = 0;
+let ghost mut ocur: Seq<u16> = output@;
+let ghost mut k: int = 0;
+let ghost mut g_count: u32 = 0; let ghost mut g_bic: bool = false; let ghost mut g_pos: nat = 0; let ghost mut g_ins: bool = false;
+let ghost mut g_mask: u8 = 0; let ghost mut g_mm: u8 = 0;
 """
 
-RLE16 = Fn(RLE, "rle_16_decompress", mod="rle", props=["C08"], expand=["repeat"],
+RLE16 = Fn(RLE, "rle_16_decompress", mod="rle", props=["C08", "C09"], expand=["repeat"],
            pre=PRE,
            loops=LOOPS, nloops=N_LOOPS, hints=HINTS, **RLE16_CONTRACT)
